@@ -168,4 +168,19 @@ typedef void (*kds_nz_map)(const uint8_t *const levels, const int16_t *const sca
 typedef int (*kds_satd)(const TranLow *coeff, int length);
 typedef int64_t (*kds_block_error)(const TranLow *coeff, const TranLow *dqcoeff, intptr_t block_size, int64_t *ssz);
 
+/* ---- motion estimation (kdiff_me.c) */
+typedef void (*kds_sad_loop)(uint8_t *src, uint32_t src_stride, uint8_t *ref, uint32_t ref_stride, uint32_t block_height,
+                             uint32_t block_width, uint64_t *best_sad, int16_t *x_search_center, int16_t *y_search_center,
+                             uint32_t src_stride_raw, int16_t search_area_width, int16_t search_area_height);
+typedef void (*kds_ext_sad_8x8_16x16)(uint8_t *src, uint32_t src_stride, uint8_t *ref, uint32_t ref_stride, uint32_t *p_best_sad_8x8,
+                                      uint32_t *p_best_sad_16x16, uint32_t *p_best_mv8x8, uint32_t *p_best_mv16x16, uint32_t mv,
+                                      uint32_t *p_sad16x16, uint32_t *p_sad8x8, EbBool sub_sad);
+typedef void (*kds_ext_sad_32x32_64x64)(uint32_t *p_sad16x16, uint32_t *p_best_sad_32x32, uint32_t *p_best_sad_64x64,
+                                        uint32_t *p_best_mv32x32, uint32_t *p_best_mv64x64, uint32_t mv, uint32_t *p_sad32x32);
+typedef void (*kds_ext_all_sad)(uint8_t *src, uint32_t src_stride, uint8_t *ref, uint32_t ref_stride, uint32_t mv, uint32_t *p_best_sad_8x8,
+                                uint32_t *p_best_sad_16x16, uint32_t *p_best_mv8x8, uint32_t *p_best_mv16x16,
+                                uint32_t p_eight_sad16x16[16][8], uint32_t p_eight_sad8x8[64][8], EbBool sub_sad);
+typedef void (*kds_ext_eight_sad)(uint32_t p_sad16x16[16][8], uint32_t *p_best_sad_32x32, uint32_t *p_best_sad_64x64,
+                                  uint32_t *p_best_mv32x32, uint32_t *p_best_mv64x64, uint32_t mv, uint32_t p_sad32x32[4][8]);
+
 #endif
